@@ -4,6 +4,7 @@ package main
 
 import (
 	"fmt"
+	"golang.org/x/tools/go/packages"
 	"go/ast"
 	"go/token"
 	"go/types"
@@ -91,7 +92,10 @@ func (u *Unit) call(st *State, x *ast.CallExpr) *Val {
 			return u.applyContract(st, ct, fn.Type().(*types.Signature), recv, args, x, calleeShortName(x))
 		}
 		if u.isPure(fn) {
-			u.evalArgs(st, x, fn.Type().(*types.Signature))
+			pargs := u.evalArgs(st, x, fn.Type().(*types.Signature))
+			if v := u.pureFunctional(st, fn, recv, pargs, resT); v != nil {
+				return v
+			}
 			return u.pureResult(st, fn, resT, x)
 		}
 		args := u.evalArgs(st, x, fn.Type().(*types.Signature))
@@ -113,6 +117,10 @@ func (u *Unit) call(st *State, x *ast.CallExpr) *Val {
 		args = u.evalArgs(st, x, sig)
 	}
 	// functype contract by the named type of the function value
+	if ft := u.funcTypeName(x.Fun); ft == "context.CancelFunc" {
+		u.trusted["pure: context.CancelFunc values"] = true
+		return u.callResult(st, resT, "cancel")
+	}
 	if ft := u.funcTypeName(x.Fun); ft != "" {
 		if ct, ok := u.eng.cs.Funcs[ft]; ok && ct.Kind == "functype" {
 			u.usedContracts[ft] = true
@@ -218,7 +226,7 @@ var purePrefixes = []string{
 	"fmt.", "errors.New", "strconv.", "strings.", "log/slog.", "(*log/slog.Logger).", "log.", "unicode.", "unicode/utf8.", "math.", "bytes.", "path.", "path/filepath.", "net/url.", "(*net/url.URL).", "(net/url.Values).",
 	"github.com/thushan/olla/internal/logger.", "(github.com/thushan/olla/internal/logger.StyledLogger).", "(*github.com/thushan/olla/internal/logger.",
 	"time.Duration.", "(time.Duration).", "(time.Time).", "time.", "context.", "(context.Context).", "sort.", "slices.", "maps.", "errors.", "net.", "(net.Error).", "(*net.OpError).",
-	"(error).", "net/http.StatusText", "(net/http.Header).Get", "(net/http.Header).Values", "(*strings.Builder).", "regexp.", "(*regexp.Regexp).", "os.Getenv", "encoding/json.Marshal", "encoding/json.Valid",
+	"(error).", "net/http.StatusText", "net/http.NewRequestWithContext", "net/http.NewRequest", "(io.Closer).Close", "(io.ReadCloser).Close", "(*strings.Builder).", "regexp.", "(*regexp.Regexp).", "os.Getenv", "encoding/json.Marshal", "encoding/json.Valid",
 	"(*github.com/thushan/olla/internal/adapter/stats.", "github.com/thushan/olla/internal/util.", "github.com/thushan/olla/internal/version.", "(reflect.", "reflect.",
 	"(*github.com/json-iterator/go.", "github.com/json-iterator/go.", "github.com/tidwall/gjson.", "(github.com/tidwall/gjson.Result).",
 	"(*sync.WaitGroup).", "(*sync.Pool).", "runtime.", "(*time.Timer).", "(*time.Ticker).", "io.", "(*bytes.Buffer).", "(*bytes.Reader).",
@@ -226,6 +234,12 @@ var purePrefixes = []string{
 
 func (u *Unit) isPure(fn *types.Func) bool {
 	n := fullName(fn)
+	if sig, ok := fn.Type().(*types.Signature); ok && sig.Recv() != nil && sig.Params().Len() == 0 && sig.Results().Len() == 1 {
+		if (fn.Name() == "Error" && kindOf(sig.Results().At(0).Type()) == kString) || fn.Name() == "Unwrap" {
+			u.trusted["pure: Error()/Unwrap() methods of error types"] = true
+			return true
+		}
+	}
 	for _, p := range purePrefixes {
 		if strings.HasPrefix(n, p) {
 			u.trusted["pure: "+p+"*"] = true
@@ -233,6 +247,67 @@ func (u *Unit) isPure(fn *types.Func) bool {
 		}
 	}
 	return false
+}
+
+var functionalPrefixes = []string{"strings.", "strconv.", "(net.Error).", "(error).Error", "unicode.", "math.", "path.", "net/http.StatusText", "net/url.PathUnescape", "net/url.QueryUnescape", "(time.Duration).", "path/filepath."}
+
+// pureFunctional: deterministic library functions become uninterpreted functions of their scalar arguments.
+func (u *Unit) pureFunctional(st *State, fn *types.Func, recv *Val, args []*Val, resT types.Type) *Val {
+	n := fullName(fn)
+	okp := false
+	for _, p := range functionalPrefixes {
+		if strings.HasPrefix(n, p) {
+			okp = true
+		}
+	}
+	if !okp {
+		return nil
+	}
+	tp, _ := resT.(*types.Tuple)
+	var rts []types.Type
+	if tp != nil {
+		for i := 0; i < tp.Len(); i++ {
+			rts = append(rts, tp.At(i).Type())
+		}
+	} else if resT != nil {
+		rts = []types.Type{resT}
+	}
+	var sorts, terms []string
+	if recv != nil {
+		sorts = append(sorts, sortOf(recv.T))
+		terms = append(terms, u.scalar(st, recv))
+	}
+	for _, a := range args {
+		k := kindOf(a.T)
+		if k == kSlice || k == kStruct || k == kTuple || k == kArray {
+			return nil
+		}
+		sorts = append(sorts, sortOf(a.T))
+		terms = append(terms, u.scalar(st, a))
+	}
+	var outs []*Val
+	for i, rt := range rts {
+		k := kindOf(rt)
+		if k == kSlice || k == kStruct || k == kTuple || k == kArray {
+			return nil
+		}
+		f := u.d.fun(fmt.Sprintf("pure!%s!%d", n, i), sorts, sortOf(rt))
+		var t string
+		if len(terms) == 0 {
+			t = f
+		} else {
+			t = app(f, terms...)
+		}
+		outs = append(outs, u.fromScalar(st, t, rt))
+	}
+	u.trusted["pure+functional: "+n] = true
+	if len(outs) == 1 && tp == nil {
+		return outs[0]
+	}
+	if len(outs) == 1 && tp != nil && tp.Len() == 1 {
+		return outs[0]
+	}
+	return &Val{T: resT, Tuple: outs}
 }
 
 func (u *Unit) pureResult(st *State, fn *types.Func, resT types.Type, x *ast.CallExpr) *Val {
@@ -639,7 +714,19 @@ func (u *Unit) applyContract(st *State, ct *Contract, sig *types.Signature, recv
 		g, _ := u.evalSpecBool(st, en.E, env2, true)
 		st.assume(g)
 	}
+	for _, rc := range ct.Records {
+		v, _ := u.evalSpec(st, rc.E, env2, true)
+		if old, ok := st.gvars[rc.Text]; ok {
+			nv := *v
+			nv.T = old.T
+			st.gvars[rc.Text] = &nv
+		} else {
+			u.eng.specError("%s: records unknown ghost var %s", env.what, rc.Text)
+		}
+	}
 	st.trace = append(st.trace, fmt.Sprintf("%s call %s (contract)", u.pos(x), short))
+	// vacuity guard: the callee's postcondition must be consistent with what is known at this call site
+	u.cover(st, fmt.Sprintf("call(%s).post-consistent@call.%d", short, n), "assumed postcondition of "+short+" is satisfiable here")
 	return rv
 }
 
@@ -674,7 +761,7 @@ func (u *Unit) resolveModifies(st *State, ct *Contract, env *SpecEnv) []modItem 
 				u.eng.specError("%s: modifies unknown ghost field %s", env.what, name)
 				continue
 			}
-			out = append(out, modItem{heap: "G!" + name, sort: sortOf(u.resolveType(env.pkg, gf.Type))})
+			out = append(out, modItem{heap: "G!" + name, sort: sortOf(u.resolveType(u.eng.pkgOr(gf.Pkg, env.pkg), gf.Type))})
 			continue
 		}
 		if strings.HasPrefix(m, "global ") {
@@ -704,7 +791,7 @@ func (u *Unit) resolveModifies(st *State, ct *Contract, env *SpecEnv) []modItem 
 				}
 				q := false
 				x := u.specExpr(st, c.Args[1], env, &q)
-				out = append(out, modItem{heap: "G!" + e.Name, sort: sortOf(u.resolveType(env.pkg, gf.Type)), ref: u.scalar(st, x)})
+				out = append(out, modItem{heap: "G!" + e.Name, sort: sortOf(u.resolveType(u.eng.pkgOr(gf.Pkg, env.pkg), gf.Type)), ref: u.scalar(st, x)})
 				continue
 			}
 			// Type.field (whole array) when the head is a type name
@@ -1015,4 +1102,11 @@ func (u *Unit) runFrozen(st *State, x *ast.CallExpr, fc *frozenCall) []*State {
 	}
 	u.eval(st, x)
 	return []*State{st}
+}
+
+func (e *Engine) pkgOr(path string, def *packages.Package) *packages.Package {
+	if p := e.pkgByPath(path); p != nil {
+		return p
+	}
+	return def
 }
